@@ -75,3 +75,6 @@ Proof.
   apply (ravel_lt_lex sh); try (apply unravel_in_bounds; lia).
   rewrite !ravel_unravel by lia. exact Hij.
 Qed.
+
+Lemma unravel_inj sh i j : i < prod sh -> j < prod sh -> unravel sh i = unravel sh j -> i = j.
+Proof. intros Hi Hj E. rewrite <- (ravel_unravel sh i Hi), <- (ravel_unravel sh j Hj), E. reflexivity. Qed.
